@@ -14,10 +14,18 @@ use super::{PartialDate, PlainDate};
 
 /// The native Rust implementation of `Temporal.PlainMonthDay`
 #[non_exhaustive]
-#[derive(Debug, Default, Clone, PartialEq, Eq)]
+#[derive(Debug, Clone, PartialEq, Eq)]
 pub struct PlainMonthDay {
     pub iso: IsoDate,
     calendar: Calendar,
+}
+
+/// The default month-day is 01-01 with the reference year every ISO month-day carries
+/// (1972), so that it equals the month-day "01-01" obtained in any other way.
+impl Default for PlainMonthDay {
+    fn default() -> Self {
+        Self::new_unchecked(IsoDate::new_unchecked(1972, 1, 1), Calendar::default())
+    }
 }
 
 impl core::fmt::Display for PlainMonthDay {
